@@ -1,8 +1,9 @@
 #!/bin/sh
-# offline setup: build the fact-extractor driver and warm the dependency cache for the analysed crates
+# offline setup: build the fact-extractor driver, warm the dependency caches for the analysed crates and for the C17 corpus
 set -e
 cd "$(dirname "$0")"
 export CARGO_NET_OFFLINE=true
 (cd driver && cargo build --offline 2>&1 | tail -2)
 python3 analysis/facts.py all >/dev/null
+python3 -c "import sys; sys.path.insert(0, 'analysis'); import facts; m = facts.extract_corpus('quick')['_meta']; print('corpus', m['types'], 'types compile_ok', m['compile_ok'])"
 echo setup ok
